@@ -8,6 +8,10 @@ Two observation points (the property's observe_at):
     language model's rows) with torch in float64, hands them to the model as exact rationals and
     compares prefixes exactly and probabilities within 1e-9; the step function is wrapped to record
     each step's topk answer; regime N: any NaN is a violation at once.
+An extreme-magnitude stream (gen_search_extreme) feeds logits / LM scores that are huge, shifted by a large
+common offset or dominated by one entry, in float32 and float64: the oracle stays torch's stable kernel in the
+case's dtype, so exact-zero underflow is reproduced and a naive exp/sum(exp), log(softmax) or shift-free
+log-sum-exp shows up as NaN/+inf (regime N) or as a wrong mass.
 Besides: Spec.spec_okb (alignment enumeration + map-based prefix beam search) is evaluated on the
 implementation's output, and every batch element is re-run alone on its own valid frames.
 """
@@ -850,10 +854,17 @@ def run(chk, cases=None):
         "y_probs) are compared per element with Model.search on torch's float64 softmax (prefixes exact, probabilities within "
         "1e-9), Spec.spec_okb judges the output against alignment enumeration and the map-based prefix beam recursion, every "
         "element is re-run alone, and NaN is policed. non-trivial = a merge of an extension into an existing prefix is "
-        "possible or the width is below the number of candidates (advance); at least two frames (search)")
+        "possible or the width is below the number of candidates (advance); at least two frames (search). "
+        "search-extreme-magnitude stream: acoustic logits and/or unnormalised LM scores scaled by 100..1000, shifted by "
+        "+-100..1000 or dominated by one entry (other probabilities underflow to exactly 0), float32 and float64, small "
+        "betas; float32 cases are compared within 2^-15")
     chk.assumptions += [
         "torch.softmax / log_softmax / exp results (float64) are handed to the model as exact rationals (regime T); "
         "float rounding of the remaining + and * is absorbed by the 1e-9 tolerance",
+        "extreme-magnitude / float32 cases: the oracle is torch's softmax / log_softmax / exp in the case's own dtype "
+        "(numerically stable kernels: finite for all finite logits, exact zeros where the true value underflows); float32 "
+        "masses (all <= 1) are compared within 2^-15; the test LM may return unnormalised scores, which the module "
+        "normalises itself",
         "topk's answer is observed (step outputs; for the module through a recording wrapper around "
         "_decoding.ctc_prefix_search_advance) and validated by Model.topk_ok instead of being predicted",
         "cells of y outside y_lens are undefined and not compared",
